@@ -1,0 +1,12 @@
+//go:build !verif
+
+package graphql
+
+import "context"
+
+// Simulation yield points used by the verification harness in /verif.
+// Without the `verif` build tag they are empty and inlined away.
+
+func simYield(string) {}
+
+func simYieldCtx(context.Context, string) {}
